@@ -1,10 +1,14 @@
 #!/bin/bash
 # tools/try_patch.sh <patch.diff> <ID> [<ID>...] : apply a patch to /repo, run the quick checks, undo.
+# The evidence files are rewritten by every run, so the clean-tree evidence is saved and restored.
 patch="$1"; shift
 cd /repo || exit 2
 git diff --quiet || { echo "/repo not clean"; exit 2; }
 git apply "$patch" || { echo "patch does not apply"; exit 2; }
+save=$(mktemp -d)
+cp -a /verif/evidence/. "$save"/
 for id in "$@"; do
   ( cd /verif && timeout 1800 ./check "$id" 2>&1 | grep -E "^(VIOLATION|KNOWN-FINDING|OK)" ; echo "  -> $id rc=${PIPESTATUS[0]}" )
 done
-git -C /repo checkout -- . 
+git -C /repo checkout -- .
+cp -a "$save"/. /verif/evidence/ && rm -rf "$save"
